@@ -220,6 +220,9 @@ def format_to_joined(tmpl: str, call: ast.Call) -> Optional[ast.AST]:
 
 def zip_to_display(e: ast.AST) -> Optional[ast.AST]:
     """zip((a, b), (c, d)) as ((a, c), (b, d)); enumerate((a, b)) as ((0, a), (1, b))."""
+    if isinstance(e, ast.Call) and isinstance(e.func, ast.Name) and e.func.id == "zip" and len(e.keywords) == 1 and e.keywords[0].arg == "strict" \
+            and isinstance(e.keywords[0].value, ast.Constant) and e.keywords[0].value.value is False:
+        e = ast.Call(func=e.func, args=e.args, keywords=[])       # zip(..., strict=False) is zip(...)
     if isinstance(e, ast.Call) and isinstance(e.func, ast.Name) and not e.keywords and e.args:
         if e.func.id == "zip" and all(isinstance(a, (ast.Tuple, ast.List)) and not any(isinstance(x, ast.Starred) for x in a.elts) for a in e.args) \
                 and len({len(a.elts) for a in e.args}) == 1:
@@ -852,6 +855,12 @@ class Inliner:
                     if q in me.new_consts:
                         count[0] += 1
                         return at(me.new_consts[q], n)
+                    if n.attr == "_fields" and isinstance(n.value, ast.Name) and fi is not None:
+                        from .normalize2 import record_fields
+                        fs = record_fields(n.value, fi.module.top_assigns, fi.module.tree)
+                        if fs is not None:
+                            count[0] += 1
+                            return at(ast.Tuple(elts=[ast.Constant(value=x) for x in fs], ctx=ast.Load()), n)     # _Point._fields
                 self.generic_visit(n)
                 return n
 
@@ -890,6 +899,14 @@ class Inliner:
             def visit_Assign(self, n):
                 self.generic_visit(n)
                 v = n.value
+                if len(n.targets) == 1 and isinstance(n.targets[0], (ast.Tuple, ast.List)) and isinstance(v, ast.Call) and isinstance(v.func, ast.Name) and fi is not None \
+                        and not any(isinstance(x, ast.Starred) for x in v.args) and not any(k.arg is None for k in v.keywords):
+                    from .normalize2 import record_fields
+                    fs = record_fields(v.func, fi.module.top_assigns, fi.module.tree)
+                    if fs is not None and len(v.args) + len(v.keywords) == len(fs) == len(n.targets[0].elts) and [k.arg for k in v.keywords] == fs[len(v.args):]:
+                        count[0] += 1
+                        n.value = at(ast.Tuple(elts=list(v.args) + [k.value for k in v.keywords], ctx=ast.Load()), v)     # a, b = _Point(x=p, y=q)
+                        v = n.value
                 if len(n.targets) == 1 and isinstance(n.targets[0], (ast.Tuple, ast.List)) and isinstance(v, ast.Call) and isinstance(v.func, ast.Name) and v.func.id == "map" \
                         and sc.resolve(v.func) == "builtins.map" and len(v.args) == 2 and not v.keywords and isinstance(v.args[0], (ast.Name, ast.Attribute)) \
                         and isinstance(v.args[1], (ast.Tuple, ast.List)) and len(v.args[1].elts) == len(n.targets[0].elts) and all(simple_arg(x) for x in v.args[1].elts):
@@ -983,23 +1000,58 @@ class Inliner:
                             if fs is not None and len(a0.args) + len(a0.keywords) == len(fs) and [k.arg for k in a0.keywords] == fs[len(a0.args):]:
                                 n.args[idx] = at(ast.Tuple(elts=list(a0.args) + [k.value for k in a0.keywords], ctx=ast.Load()), a0)
                                 count[0] += 1
+                # f(**{"a": x, "b": y})  ->  f(a=x, b=y)
+                if any(k.arg is None and isinstance(k.value, ast.Dict) and k.value.keys and all(isinstance(kk, ast.Constant) and isinstance(kk.value, str) and kk.value.isidentifier() for kk in k.value.keys)
+                       for k in n.keywords):
+                    new_kws = []
+                    for k in n.keywords:
+                        if k.arg is None and isinstance(k.value, ast.Dict) and k.value.keys and all(isinstance(kk, ast.Constant) and isinstance(kk.value, str) and kk.value.isidentifier() for kk in k.value.keys):
+                            new_kws += [ast.keyword(arg=kk.value, value=vv) for kk, vv in zip(k.value.keys, k.value.values)]
+                        else:
+                            new_kws.append(k)
+                    if len({k.arg for k in new_kws if k.arg}) == len([k for k in new_kws if k.arg]):
+                        n.keywords = new_kws
+                        count[0] += 1
+                # open(file=p, mode="w", ...)  ->  open(p, "w", ...)
+                if isinstance(f, ast.Name) and f.id == "open" and not n.args and n.keywords and n.keywords[0].arg == "file" and sc.resolve(f) == "builtins.open":
+                    n.args.append(n.keywords.pop(0).value)
+                    if n.keywords and n.keywords[0].arg == "mode":
+                        n.args.append(n.keywords.pop(0).value)
+                    count[0] += 1
+                if q and q not in me.project.funcs and q + ".__init__" in me.project.funcs:
+                    q = q + ".__init__"         # constructing a class of the package: the parameters of its __init__
+                    ctor = True
+                else:
+                    ctor = False
+                # a TypedDict "constructor" / dict(k=v, ...) builds exactly the dict display with those keys
+                if n.keywords and not n.args and not any(k.arg is None for k in n.keywords) and isinstance(f, ast.Name):
+                    is_td = False
+                    if fi is not None:
+                        for cd in fi.module.tree.body:
+                            if isinstance(cd, ast.ClassDef) and cd.name == f.id and any((isinstance(b, ast.Name) and b.id == "TypedDict") or (isinstance(b, ast.Attribute) and b.attr == "TypedDict") for b in cd.bases):
+                                is_td = True
+                    if is_td or sc.resolve(f) == "builtins.dict":
+                        count[0] += 1
+                        return at(ast.Dict(keys=[ast.Constant(value=k.arg) for k in n.keywords], values=[k.value for k in n.keywords]), n)
                 if q in me.project.funcs and n.keywords and not any(k.arg is None for k in n.keywords) and not any(isinstance(a, ast.Starred) for a in n.args):
                     # f(a, large=x) -> f(a, x) when `large` is the next positional parameter of a function of the package: one spelling of a call
                     cal = me.project.funcs[q]
                     a_ = cal.node.args
                     if not a_.vararg:
                         params = [x.arg for x in a_.posonlyargs + a_.args]
-                        if cal.cls and params and isinstance(n.func, ast.Attribute) and not any(isinstance(d, ast.Name) and d.id == "staticmethod" for d in cal.node.decorator_list):
+                        if cal.cls and params and (isinstance(n.func, ast.Attribute) or ctor) and not any(isinstance(d, ast.Name) and d.id == "staticmethod" for d in cal.node.decorator_list):
                             params = params[1:]
                         kw = {k.arg: k for k in n.keywords}
                         moved = 0
                         while len(n.args) < len(params) and params[len(n.args)] in kw and len(n.args) >= len(a_.posonlyargs) - (1 if params is not None and len(params) < len(a_.posonlyargs + a_.args) else 0) \
-                                and n.keywords and n.keywords[0].arg == params[len(n.args)] and params[len(n.args)] not in KWCALLS.get(q, ()):
+                                and n.keywords and n.keywords[0].arg == params[len(n.args)] and params[len(n.args)] not in KWCALLS.get(q, ()) and params[len(n.args)] not in KWCALLS.get(q[:-9] if q.endswith('.__init__') else q, ()):
                             k = n.keywords.pop(0)
                             n.args.append(k.value)
                             moved += 1
                         if moved:
                             count[0] += 1
+                if ctor:
+                    q = q[:-9]
                 if q in me.new_funcs and (fi is None or q != fi.qualname):
                     e = me.as_expression(q, n, sc, fi)
                     if e is not None and not (plain_only and contains(e, ast.IfExp) and not contains(ast.Module(body=body_without_doc(me.new_funcs[q].node), type_ignores=[]), ast.IfExp)):
